@@ -1,5 +1,6 @@
 import CssVerif.Lemmas.Struct
 import CssVerif.Lemmas.StructMedia
+import CssVerif.Lemmas.StructCss
 /-!
 # C04 — syntax errors are contained: only the malformed construct is dropped
 
@@ -456,20 +457,55 @@ theorem media_fuel_irrelevant (O : Oracle) (ns : List (Cps × Cps)) (f₁ f₂ :
 
 /-! ## known finding `C04-escaped-delimiter-ident`
 
-All theorems above classify brackets the way `_tokensupto2` does: by token VALUE.  The tokenizer unescapes
-identifiers, so `\7b ` is an IDENT token with value `{`, which the code (and therefore `Tok.br`, `nest`,
-`Balanced`) counts as an opening brace although in CSS it is a plain identifier.  Full statement wanted
-by the property (brackets = CHAR tokens and FUNCTION, `Tok.cssBr`):
+All theorems above classify brackets and end tokens the way `_tokensupto2` does: by token VALUE.  The
+tokenizer unescapes identifiers, so `\7b ` is an IDENT token with value `{`, which the code (and therefore
+`Tok.br`, `nest`, `Balanced`, `Quiet`, `endTok`) counts as an opening brace although in CSS it is a plain
+identifier.  Full statement wanted by the property (brackets and end tokens = CHAR tokens, FUNCTION opens
+a parenthesis: `Tok.cssBr`, `nestCss`, `QuietCss`, `endTokCss` of `Lemmas/StructCss.lean`):
 
-    theorem upto_balanced_css : BalancedCss g → … → upto m none (g ++ e :: rest) = (g ++ [e], rest)
+    theorem upto_balanced_css : QuietCss m stk₀ g → nestCss stk₀ g = some stk' → pushCss stk' e = some [] →
+      endTokCss m e → upto m none (g ++ e :: rest) = (g ++ [e], rest)
 
-It is FALSE for the code; it holds under the guard that no non-CHAR token has a bracket as its value, because
-then the two classifications coincide: -/
+It is FALSE for the code (witness below); it holds under the guard that no non-CHAR token has a delimiter as
+its value (`plainTokS`), because then the two classifications coincide.  The proposed tokenizer repair
+`proposed-fixes/C04-escaped-delimiter-kept.diff` (a hex escape that decodes to a delimiter stays escaped)
+makes the guard an invariant of the token lists the parser sees. -/
 
-/-- `_partial`: under the guard `plainTok` the value-based classification is the CSS one, so every theorem
-of this file reads as a statement about CSS-level balance. -/
+/-- `_partial` (per token): under the guard `plainTok` the value-based bracket classification is the CSS one. -/
 theorem bracket_classification_partial (t : Tok) (h : plainTok t = true) : t.br = t.cssBr :=
   br_eq_cssBr t h
+
+/-- `_partial` (T4.1 at CSS level): for token lists that satisfy the guard `plainTokS`, a stretch that is
+quiet and well nested in the CSS sense, followed by a CSS-level end token that closes it, is taken exactly. -/
+theorem upto_balanced_css_partial (m : Mode) (stk₀ stk' : List K) (g : List Tok) (e : Tok) (rest : List Tok)
+    (hm : m.initStack = some stk₀) (hplain : ∀ t ∈ g ++ [e], plainTokS t = true)
+    (hq : QuietCss m stk₀ g = true) (hn : nestCss stk₀ g = some stk') (hp : pushCss stk' e = some [])
+    (he : endTokCss m e = true) :
+    upto m none (g ++ e :: rest) = (g ++ [e], rest) := by
+  have hg : ∀ t ∈ g, plainTokS t = true := fun t ht => hplain t (List.mem_append_left _ ht)
+  have hpe : plainTokS e = true := hplain e (by simp)
+  refine upto_none_end m stk₀ stk' g e rest hm ?_ ?_ ?_ ?_
+  · rw [quiet_eq_quietCss m stk₀ g hg]; exact hq
+  · rw [nest_eq_nestCss stk₀ g hg]; exact hn
+  · rw [push_eq_pushCss stk' e hpe]; exact hp
+  · rw [plainTokS_end m e hpe]; exact he
+
+/-- the same lifting for whole token lists: under the guard, `nest` / `Quiet` (the vocabulary of every theorem of
+this file) ARE the CSS-level notions, so all of T4.2–T4.4 read as statements about CSS-level balance. -/
+theorem css_level_reading_partial (m : Mode) (stk : List K) (g : List Tok) (h : ∀ t ∈ g, plainTokS t = true) :
+    nest stk g = nestCss stk g ∧ Quiet m stk g = QuietCss m stk g :=
+  ⟨nest_eq_nestCss stk g h, quiet_eq_quietCss m stk g h⟩
+
+-- non-vacuity: `( x ; [ y ] )` satisfies the guard and is quiet / well nested at CSS level
+example : (∀ t ∈ [Ex.lparen, Ex.idt "x", Ex.semi, Ex.lbrack, Ex.idt "y", Ex.rbrack, Ex.rparen] ++ [Ex.semi],
+      plainTokS t = true)
+    ∧ QuietCss .semicolon [] [Ex.lparen, Ex.idt "x", Ex.semi, Ex.lbrack, Ex.idt "y", Ex.rbrack, Ex.rparen] = true
+    ∧ nestCss [] [Ex.lparen, Ex.idt "x", Ex.semi, Ex.lbrack, Ex.idt "y", Ex.rbrack, Ex.rparen] = some []
+    ∧ pushCss [] Ex.semi = some [] ∧ endTokCss .semicolon Ex.semi = true := by decide
+-- the guard excludes exactly the tokens of the finding: IDENT `{`, IDENT `;`, HASH-like `:` …
+example : plainTokS ⟨.ident, vLBrace, 0⟩ = false ∧ plainTokS ⟨.ident, vSemi, 0⟩ = false
+    ∧ plainTokS ⟨.other, vColon, 0⟩ = false ∧ plainTokS (Ex.idt "x") = true ∧ plainTokS Ex.lbrace = true := by
+  decide
 
 /-- the witness `a{\7b :1;color:red} b{c:d}`: the IDENT `{` violates the guard and is counted as a brace … -/
 example : plainTok ⟨.ident, vLBrace, 0⟩ = false ∧ (⟨.ident, vLBrace, 0⟩ : Tok).br = .op .brace
